@@ -124,6 +124,39 @@ pub const PRELUDE: &str = r#"(struct mnode (a b) #:mutable)
 
 pub const NROOTS: usize = 4;
 
+/// Alternative homes for the roots r2 and r3 (half of the scripts): r2 lives in a thread-local-storage cell
+/// (`make-tls`), r3 is held by the *host* only, through the collector's root table (`SteelVal::as_rooted`,
+/// taken by the worker's `host-root!`).  The script text is rewritten: `(set! r2 e)` -> `(set-r2! e)`,
+/// `r2` -> `(get-r2)`, likewise r3.
+pub const ALT_PRELUDE: &str = r#"
+(define t2 (make-tls #f))
+(define (set-r2! v) (set-tls! t2 v))
+(define (get-r2) (get-tls t2))
+(define h3 #f)
+(define (set-r3! v) (when h3 (host-unroot! h3)) (set! h3 (if v (host-root! v) #f)))
+(define (get-r3) (if h3 (host-rooted-ref h3) #f))"#;
+
+fn alt_rewrite(src: &str) -> String {
+    let mut s = src.replace("(set! r2 ", "(set-r2! ").replace("(set! r3 ", "(set-r3! ");
+    for (name, get) in [("r2", "(get-r2)"), ("r3", "(get-r3)")] {
+        let mut out = String::new();
+        let b = s.as_bytes();
+        let mut i = 0;
+        while i < b.len() {
+            let ident = |c: u8| c.is_ascii_alphanumeric() || b"-!?*<>=/+_%#".contains(&c);
+            if s[i..].starts_with(name) && (i == 0 || !ident(b[i - 1])) && (i + 2 >= b.len() || !ident(b[i + 2])) {
+                out.push_str(get);
+                i += 2;
+            } else {
+                out.push(b[i] as char);
+                i += 1;
+            }
+        }
+        s = out;
+    }
+    s
+}
+
 #[derive(Clone, Debug, Serialize, Deserialize)]
 pub struct Piece {
     pub src: String,
@@ -369,6 +402,7 @@ pub fn generate(data: &[u16], stress: bool, cont_ok: bool, max_ops: usize) -> Sc
     let mut c = Chooser::new(data);
     let mut m = Model::default();
     let mut st = GraphStats::default();
+    let alt = c.chance(1, 2);
     let mut pieces = vec![Piece { src: PRELUDE.to_string(), expect: None }];
     let check = |m: &Model, pieces: &mut Vec<Piece>, st: &mut GraphStats| {
         st.checks += 1;
@@ -505,5 +539,13 @@ pub fn generate(data: &[u16], stress: bool, cont_ok: bool, max_ops: usize) -> Sc
         }
     }
     check(&m, &mut pieces, &mut st);
+    if alt {
+        for p in pieces.iter_mut().skip(1) {
+            p.src = alt_rewrite(&p.src);
+        }
+        pieces[0].src.push_str(ALT_PRELUDE);
+        st.kinds_built.push("root-in-tls".into());
+        st.kinds_built.push("root-held-by-host".into());
+    }
     Script { pieces, stats: st }
 }
